@@ -1,6 +1,8 @@
 package checks
 
 import (
+	"time"
+
 	"verif/harness/mc"
 	"verif/harness/run"
 )
@@ -22,8 +24,23 @@ func init() {
 			},
 			Bound:       map[string]int{"quick": 2, "thorough": 3},
 			Assumptions: e1Assumptions,
+			Also:        also[p],
+			Enum:        enums[p],
 		})
 	}
+}
+
+// also: violations of these properties inside a property's own scenarios count for it.
+var also = map[string][]string{
+	"C06": {"C03"},
+	"C11": {"C09", "C07"},
+	"C13": {"C01", "C03", "C07"},
+	"C19": {"C07", "C01"},
+}
+
+var enums = map[string]func(tier string, deadline time.Time) *run.EnumResult{
+	"C05": enumCanCall,
+	"C19": enumThrottle,
 }
 
 // allScenarios is the union of all E1 scenario families.
